@@ -73,6 +73,7 @@ SEQS = {
     "n2": [("W", 0, 40), ("ON", 0), ("W", 0, 40), ("ON", 1), "W", ("OFF", 0), ("W", 0, 40), ("OFF", 1)],
     "n2sim": [("ON", 0), ("ON", 1), "W", ("OFF", 0), ("OFF", 1)],
     "rest": ["W"],
+    "ww": ["W", "W", ("ON", 0), "W", ("PC", 4), "W", ("OFF", 0), "W", "W", ("KSX",), ("ON", 1), "W", ("OFF", 1)],
     "sigonly": [("TS", 3, 4), "W", ("KSX",), "W"],
     "sig": [("TS", 3, 4), ("ON", 0), "W", ("KSX",), ("W", 0, 40), ("OFF", 0), ("TS", 6, 8), "W", ("ON", 1), "W", ("TS", 5, 4), ("OFF", 1)],
     "siglate": [("W", 1, 40), ("TS", 6, 8), ("ON", 0), "W", ("OFF", 0), ("KSX",), "W"],
@@ -130,6 +131,8 @@ def queries(tier, seed):
     qs.append(q_saveload("two", ["n1", "n2sim"], 0, 20))
     qs.append(q_saveload("three", ["n1", "n1", "n1"], 0, 12))
     qs.append(q_saveload("noteless_middle", ["n1", "rest", "n1"], 0, 12))
+    qs.append(q_saveload("adjacent_waits", ["ww"], 13, 12))
+    qs.append(q_saveload("1+sig", ["n1", "sig"], (seed + 2) % 15, 8))
     qs.append(q_saveload("sigonly_first", ["sigonly", "n1"], 13, 12))
     for k in keys:
         qs.append(q_saveload("sig", ["sig"], k, 12))
